@@ -9,6 +9,8 @@ let rec int_of_nat = function O -> 0 | S n -> 1 + int_of_nat n
 let rec nat_of_int i = if i <= 0 then O else S (nat_of_int (i - 1))
 
 let zs l = String.concat "," (List.map (fun z -> string_of_int (int_of_z z)) l)
+(* HashSets are printed sorted, as the harness does *)
+let zset l = String.concat "," (List.map string_of_int (List.sort compare (List.map int_of_z l)))
 let kvs l = String.concat "," (List.map (fun (k, v) -> string_of_int (int_of_z k) ^ "=" ^ string_of_int (int_of_z v)) l)
 
 let ints_of s = if s = "" then [] else List.map (fun x -> z_of_int (int_of_string x)) (String.split_on_char ',' s)
@@ -36,7 +38,7 @@ let op_of f =
   | _ -> failwith ("bad op " ^ f)
 
 let job_str j =
-  Printf.sprintf "%d:%d:[%s]:[%s]:%s:%s" (int_of_z j.jid) (int_of_z j.jgid) (zs j.jpids) (zs j.jstopped)
+  Printf.sprintf "%d:%d:[%s]:[%s]:%s:%s" (int_of_z j.jid) (int_of_z j.jgid) (zs j.jpids) (zset j.jstopped)
     (match j.jst with Running -> "Running" | Stopped -> "Stopped") (if j.jbg then "bg" else "fg")
 
 let table_str t = "[" ^ String.concat ";" (List.map job_str t) ^ "]"
@@ -44,7 +46,7 @@ let table_str t = "[" ^ String.concat ";" (List.map job_str t) ^ "]"
 let snap (r : rst) =
   let s = r.r_sh in
   Printf.sprintf "jobs=%s reap=[%s] stop=[%s] cont=[%s] kill=[%s] st=%d blk=%d left=%d"
-    (table_str s.tab) (kvs s.mp.m_reap) (zs s.mp.m_stop) (zs s.mp.m_cont) (kvs s.mp.m_kill)
+    (table_str s.tab) (kvs s.mp.m_reap) (zset s.mp.m_stop) (zset s.mp.m_cont) (kvs s.mp.m_kill)
     (int_of_z r.r_status) (if r.r_blocked then 1 else 0) (List.length r.r_pend)
 
 let () =
@@ -53,8 +55,4 @@ let () =
     | "hist" :: ops ->
         let h = List.map (fun f -> op_of (dec_bytes f)) ops in
         print_endline (String.concat " | " (List.map snap (trace init_rst h)))
-    | ["bs"; l; x] ->
-        (match binary_search (ints_of (dec_bytes l)) (z_of_int (int_of_string (dec_bytes x))) with
-         | Inl i -> Printf.printf "Ok(%d)\n" (int_of_nat i)
-         | Inr i -> Printf.printf "Err(%d)\n" (int_of_nat i))
     | _ -> print_endline "?bad-case") Sys.argv.(1)
